@@ -242,14 +242,14 @@ Section Elems.
     | |- keeps (if ?b then _ else _) _ => destruct b
     end; try exact I.
     - (* M *) pops. assert (F : frames s s1) by fr.
-      destruct a0 as [z|l|c], a as [z'|l'|c']; ofopt; try (apply keeps_map_push; exact F); fr.
+      destruct a0 as [z|t0|l|c], a as [z'|t0'|l'|c']; ofopt; try (apply keeps_map_push; exact F); fr.
     - (* F *) pops. assert (F : frames s s1) by fr.
-      destruct a0 as [z|l|c], a as [z'|l'|c']; ofopt; try (apply keeps_filter_push; exact F); fr.
+      destruct a0 as [z|t0|l|c], a as [z'|t0'|l'|c']; ofopt; try (apply keeps_filter_push; exact F); fr.
     - (* ṡ *) pops. assert (F : frames s s1) by fr.
-      destruct a0 as [z|l|c], a as [z'|l'|c']; ofopt; try exact I;
+      destruct a0 as [z|t0|l|c], a as [z'|t0'|l'|c']; ofopt; try exact I;
         match goal with |- keeps (xbind (key_app app ?c ?its s1) _) _ =>
           pose proof (keeps2_key_app c its s1) as K; destruct (key_app app c its s1) as [[ks s3]| |] end; simpl in *; fr.
-    - (* † *) pops. destruct a as [z|l|c]; simpl; try exact I.
+    - (* † *) pops. destruct a as [z|t0|l|c]; simpl; try exact I.
       + match goal with |- keeps (xbind (of_opt ?o) _) _ => destruct o end; simpl; fr.
       + eapply keeps_weaken; [exact E|apply Hcall].
   Qed.
@@ -266,7 +266,7 @@ Section Elems.
     - (* v *) destruct (arity_nat (c_arity fA)) as [|[|[|k]]]; try exact I.
       + pops. ofopt. apply keeps_map_push. fr.
       + pops. assert (F : frames s s1) by fr.
-        destruct a0 as [z|l|c], a as [z'|l'|c']; try exact I; ofopt; apply keeps_map_push; exact F.
+        destruct a0 as [z|t0|l|c], a as [z'|t0'|l'|c']; try exact I; ofopt; apply keeps_map_push; exact F.
     - (* & *) destruct (popn _ (push (reg s) s)) as [s1 popped] eqn:E. apply popn_frames in E.
       match goal with |- keeps (xbind (app fA ?a s1) _) _ =>
         pose proof (Happ fA a s1) as K; destruct (app fA a s1) as [[r s2]| |] end; simpl in *; fr.
@@ -333,7 +333,7 @@ Section RStep.
   Lemma pop_star_frames s s1 l : pop_star s = Some (s1, l) -> frames s s1.
   Proof.
     unfold pop_star. destruct (pop1 s) as [sa v] eqn:E. apply pop1_frames in E.
-    destruct v as [z| |]; try discriminate. destruct (z >? 5000)%Z; try discriminate.
+    destruct v as [z| | |]; try discriminate. destruct (z >? 5000)%Z; try discriminate.
     intro H. inversion H as [H1]. apply popn_frames in H1. eapply frames_trans; eauto.
   Qed.
 
@@ -387,7 +387,7 @@ Section RStep.
 
   Lemma keeps_r_token t s : keeps (r_token cf rec t s) s.
   Proof.
-    unfold r_token. destruct (tk t); try exact I.
+    unfold r_token. destruct (tk t); try exact I; try (destruct (string_value t); simpl; fr; fail).
     - destruct (number_value (tv t)); simpl; fr.
     - destruct (tv t) as [|k [|? ?]]; try exact I.
       apply keeps_elem_sem; [apply keeps2_r_app|apply keeps_r_callstk].
@@ -481,7 +481,7 @@ Section RStep.
       destruct (pop1 s1) as [s2 v] eqn:E. apply pop1_frames in E.
       eapply keeps2_weaken; [|apply Hwl]. simpl in K. fr.
     - destruct (name_ok _); [|exact I].
-      destruct (lookup_var _ s) as [[z|l|c]|]; try exact I. apply keeps2_norm. apply keeps_r_call_on_stack.
+      destruct (lookup_var _ s) as [[z|t0|l|c]|]; try exact I. apply keeps2_norm. apply keeps_r_call_on_stack.
     - destruct (name_ok _); [|exact I]. destruct (params_of params); simpl; fr.
     - simpl. fr.
     - destruct op; apply keeps2_norm;
